@@ -598,6 +598,15 @@ class Engine:
                 for x in extra:
                     f.write('(assert %s)\n' % x.sexpr())
                 f.write('(check-sat)\n; took %.1fs result %s\n' % (dt, r))
+        dd = os.environ.get('SYMEX_DUMP_DIR')
+        if dd and r != z3.unknown and self.stats['queries'] % int(os.environ.get('SYMEX_DUMP_EVERY', '50')) == 0:
+            # cross-check material: the query as SMT-LIB2 with the answer this solver gave (tools/crosscheck.py re-asks /usr/bin/z3 and cvc5)
+            with open(os.path.join(dd, 'q%d_%06d.smt2' % (os.getpid(), self.stats['queries'])), 'w') as f:
+                f.write('; expected: %s\n(set-logic ALL)\n' % r)
+                f.write(self.solver.to_smt2().replace('(check-sat)', ''))
+                for x in extra:
+                    f.write('(assert %s)\n' % x.sexpr())
+                f.write('(check-sat)\n')
         self.stats['queries'] += 1
         self.stats['solver_s'] += dt
         if r == z3.sat:
